@@ -45,29 +45,6 @@ def jsonWs (c : Nat) : Bool := c == 32 || c == 9 || c == 10 || c == 13
 
 def skipWs (s : List Nat) : List Nat := s.dropWhile jsonWs
 
-def isCont (b : Nat) : Bool := 128 ≤ b && b ≤ 191
-
-/-- UTF-8 as accepted by `bytes.decode('utf-8', 'surrogatepass')` -/
-def validUtf8 : List Nat → Bool
-  | [] => true
-  | b :: rest =>
-    if b < 128 then validUtf8 rest
-    else if 194 ≤ b && b ≤ 223 then
-      match rest with
-      | c1 :: r => isCont c1 && validUtf8 r
-      | _ => false
-    else if 224 ≤ b && b ≤ 239 then
-      match rest with
-      | c1 :: c2 :: r => isCont c1 && isCont c2 && (b != 224 || 160 ≤ c1) && validUtf8 r
-      | _ => false
-    else if 240 ≤ b && b ≤ 244 then
-      match rest with
-      | c1 :: c2 :: c3 :: r =>
-        isCont c1 && isCont c2 && isCont c3 && (b != 240 || 144 ≤ c1) && (b != 244 || c1 ≤ 143)
-          && validUtf8 r
-      | _ => false
-    else false
-
 def isDigit (c : Nat) : Bool := 48 ≤ c && c ≤ 57
 
 /-- string body up to the closing quote: (body, rest after the quote) -/
